@@ -350,8 +350,15 @@ impl Property for C03 {
             "'>=1 error is reported' is not checked (deciding well-formedness of an arbitrary damaged body needs a full reference parser)".into(),
         ]
     }
+    fn fuzz(&self) -> Option<crate::FuzzSpec> {
+        Some(crate::FuzzSpec { label: "c03-generated", max_len: 420, runs: 80000 })
+    }
     fn run(&self, ctx: &mut Ctx) {
         let cls = classes();
+        'enumerations: {
+        if ctx.fuzzing() {
+            break 'enumerations;
+        }
         let mut local: HashSet<u64> = HashSet::new();
         let mut k = 0u64;
         // (a) exhaustive single edits
@@ -440,6 +447,7 @@ impl Property for C03 {
             }
         }
         ctx.stats.nt_disjoint += local.len() as u64;
+        }
 
         // (c) generated files
         let cases = ctx.tier.pick(60_000, 1_200_000);
